@@ -1,3 +1,4 @@
+\* generated by mkstorecfg.py - C04 thorough
 CONSTANTS
   Kind = "bridge"
   Fixed = TRUE
